@@ -216,6 +216,16 @@ class HashSeedEngine(Engine):
                 protos.append(candidate)
             rng.shuffle(protos)
         subs = []
+        if circular and rng.random() < 0.6:
+            # an unrelated area in the middle of the record and several small areas at its very end, so that
+            # region creation has to merge its first (origin-crossing) and last sections
+            middle = length // 2
+            subs.append({"loc": [[middle - 4, middle + 4]], "label": "mid"})
+            for i in range(rng.randint(1, 3)):
+                start = length - rng.choice([12, 9, 7])
+                subs.append({"loc": [[start, start + rng.choice([3, 4, 5])]], "label": f"end{i}"})
+            if not any(len(p["loc"]) == 2 for p in protos):
+                subs.append({"loc": [[length - 6, length], [0, 5]], "label": "cross"})
         if rng.random() < 0.3:
             start = rng.randrange(0, length - 20)
             subs.append({"loc": [[start, start + 20]], "label": "s"})
@@ -223,10 +233,12 @@ class HashSeedEngine(Engine):
                            "subs": subs}}
 
     def _gen_pipeline(self, rng) -> Dict[str, Any]:
-        from sim.world.pipeline import DETECTION_PROFILES, DOMAIN_PROFILES, MAIN_DOMAINS
+        from sim.world.pipeline import DETECTION_PROFILES, DOMAIN_PROFILES, MAIN_DOMAINS, module_layout
         records = []
         hits = []
         domain_hits = []
+        explicit_subtypes: List[Dict[str, Any]] = []
+        with_domains = set()
         profiles = sorted(DETECTION_PROFILES)
         combos = [["PKS_AT", "PKS_KS"], ["Condensation", "AMP-binding"], ["t2ks", "t2clf"], ["LANC_like", "Lant_dehydr_N", "Lant_dehydr_C"],
                   ["Chal_sti_synt_C"], ["PUFA_KS"], ["APE_KS1"], ["phytoene_synt"], ["DarB"], ["PKS_AT", "tra_KS"]]
@@ -237,7 +249,7 @@ class HashSeedEngine(Engine):
             pos = rng.choice([0, 50])
             g = 0
             while g < 16:
-                size = rng.choice([300, 600, 900])
+                size = rng.choice([300, 600, 900, 1500, 2400])
                 if pos + size > length:
                     break
                 genes.append({"name": f"r{r}g{g}", "parts": [[pos, pos + size]], "strand": rng.choice([1, -1])})
@@ -254,33 +266,43 @@ class HashSeedEngine(Engine):
                     hits.append({"cds": gene["name"], "profile": profile, "bitscore": rng.choice([600, 600, 800]),
                                  "evalue": 1e-30, "start": start, "end": min(aa - 1, start + rng.choice([40, 60])),
                                  "qstart": 1, "qend": 60})
-                    if profile in ("PKS_KS", "PKS_AT", "Condensation", "AMP-binding", "tra_KS") and aa >= 200:
-                        layout = (["PKS_KS", "PKS_AT", "ACP"] if profile.startswith("PKS") or profile == "tra_KS"
-                                  else ["Condensation_LCL", "AMP-binding", "PCP"])
-                        if rng.random() < 0.3:
-                            layout = layout + [rng.choice(["Thioesterase", "PKS_KR", "Epimerization"])]
+                    if profile in ("PKS_KS", "PKS_AT", "Condensation", "AMP-binding", "tra_KS") and aa >= 200 \
+                            and gene["name"] not in with_domains:
+                        with_domains.add(gene["name"])
+                        if rng.random() < 0.5:
+                            layout = (["PKS_KS", "PKS_AT", "ACP"] if profile.startswith("PKS") or profile == "tra_KS"
+                                      else ["Condensation_LCL", "AMP-binding", "PCP"])
+                            if rng.random() < 0.3:
+                                layout = layout + [rng.choice(["Thioesterase", "PKS_KR", "Epimerization"])]
+                        else:
+                            layout = module_layout(rng)
+                        width = max(12, min(45, (aa - 4) // max(1, len(layout)) - 3))
                         offset = 2
-                        for name in layout:
-                            width = rng.choice([40, 50])
+                        for entry in layout:
+                            name, subtype = entry if isinstance(entry, tuple) else (entry, None)
                             if offset + width >= aa:
                                 break
                             domain_hits.append({"cds": gene["name"], "profile": name, "bitscore": rng.choice([100, 100, 200]),
                                                 "evalue": 1e-20, "start": offset, "end": offset + width})
-                            if rng.random() < 0.2:  # a competing hit with the same start and score
+                            if subtype:
+                                explicit_subtypes.append({"cds": gene["name"], "profile": subtype, "bitscore": 120,
+                                                          "evalue": 1e-15, "start": offset, "end": offset + width})
+                            if rng.random() < 0.1:  # a competing hit with the same start and score
                                 domain_hits.append({"cds": gene["name"], "profile": rng.choice(MAIN_DOMAINS),
                                                     "bitscore": domain_hits[-1]["bitscore"], "evalue": 1e-20,
                                                     "start": offset, "end": offset + width})
-                            offset += width + rng.choice([0, 5])
+                            offset += width + rng.choice([0, 3])
             if rng.random() < 0.3:
                 for _ in range(rng.randint(1, 3)):
                     gene = rng.choice(genes)
                     hits.append({"cds": gene["name"], "profile": rng.choice(profiles), "bitscore": 600, "evalue": 1e-30,
                                  "start": 1, "end": 60, "qstart": 1, "qend": 60})
-        lengths = {name: 60 for name in DOMAIN_PROFILES}
+        lengths = {name: 20 for name in DOMAIN_PROFILES}
         # KS subtypes: hits of the subtype database inside PKS_KS domains become internal hits
-        subtype_hits = []
+        subtype_hits = list(explicit_subtypes)
+        covered = {(hit["cds"], hit["start"]) for hit in explicit_subtypes}
         for hit in domain_hits:
-            if hit["profile"] == "PKS_KS" and rng.random() < 0.7:
+            if hit["profile"] == "PKS_KS" and (hit["cds"], hit["start"]) not in covered and rng.random() < 0.5:
                 subtype_hits.append({"cds": hit["cds"], "profile": rng.choice(["Hybrid-KS", "Modular-KS", "Iterative-KS", "Enediyne-KS"]),
                                      "bitscore": rng.choice([90, 90, 150]), "evalue": 1e-15,
                                      "start": hit["start"] + rng.choice([0, 2]), "end": hit["end"] - rng.choice([0, 3])})
